@@ -300,11 +300,25 @@ class Inliner:
         if call is None:
             return None
         r = self.resolve(call, cls)
-        if r is None or r[0].expr is not None:
+        if r is None:
+            return None
+        if mode == "ifnot" and not s.orelse and len(s.body) == 1 and isinstance(s.body[0], ast.Return) and isinstance(s.body[0].value, ast.Constant) \
+                and s.body[0].value.value is False and (r[0].expr is None or isinstance(r[0].expr, ast.BoolOp)):
+            mode = "guardfalse"             # `if not check(x): return False`: every `return e` of the check becomes `if not e: return False`
+        elif r[0].expr is not None:
             return None
         h, recv = r
         try:
             prefix, rename, subst = self.bind(h, call, recv, host_names)
+            if mode == "assign" and isinstance(s.targets[0], ast.Name) and h.body and isinstance(h.body[-1], ast.Return) and isinstance(h.body[-1].value, ast.Name) \
+                    and sum(1 for x in ast.walk(h.fn) if isinstance(x, ast.Return)) == 1:
+                # the helper builds its result in a local and returns it: that local *is* the host's target
+                loc, tgt = h.body[-1].value.id, s.targets[0].id
+                used_in_helper = {x.id for x in ast.walk(h.fn) if isinstance(x, ast.Name)} | {a.arg for a in ast.walk(h.fn) if isinstance(a, ast.arg)}
+                in_args = {x.id for a in list(call.args) + [k.value for k in call.keywords] for x in ast.walk(a) if isinstance(x, ast.Name)}
+                if loc in h.assigned and loc not in h.params and loc not in h.kwonly and tgt not in (used_in_helper - {loc}) and tgt not in in_args:
+                    rename = dict(rename)
+                    rename[loc] = tgt
             body = [_Rename(rename, subst).visit(copy.deepcopy(x)) for x in h.body]
             if mode == "return":
                 out = prefix + body
@@ -314,12 +328,21 @@ class Inliner:
                     res_name += "_"
 
                 def make_result(value, node, mode=mode, s=s, res_name=res_name):
+                    if mode == "guardfalse":
+                        if isinstance(value, ast.Constant) and value.value is True:
+                            return []
+                        if value is None or (isinstance(value, ast.Constant) and not value.value):
+                            return [ast.copy_location(ast.Return(value=ast.Constant(value=False)), node)]
+                        return [ast.copy_location(ast.If(test=ast.UnaryOp(op=ast.Not(), operand=value),
+                                                         body=[ast.copy_location(ast.Return(value=ast.Constant(value=False)), node)], orelse=[]), node)]
                     if mode == "expr":
                         if value is not None and any(isinstance(x, ast.Call) for x in ast.walk(value)):
                             return [ast.copy_location(ast.Expr(value=value), node)]
                         return []
                     v = value if value is not None else ast.Constant(value=None)
                     if mode == "assign":
+                        if isinstance(v, ast.Name) and isinstance(s.targets[0], ast.Name) and v.id == s.targets[0].id:
+                            return []                  # built in place under the target's own name
                         return [ast.copy_location(ast.Assign(targets=[copy.deepcopy(s.targets[0])], value=v), node)]
                     if mode == "annassign":
                         return [ast.copy_location(ast.Assign(targets=[copy.deepcopy(s.target)], value=v), node)]
@@ -330,6 +353,8 @@ class Inliner:
                 out = prefix + new_body
                 if mode == "aug":
                     out.append(ast.AugAssign(target=s.target, op=s.op, value=ast.Name(id=res_name, ctx=ast.Load())))
+                elif mode == "guardfalse":
+                    pass
                 elif mode in ("if", "ifnot"):
                     test = ast.Name(id=res_name, ctx=ast.Load())
                     if mode == "ifnot":
